@@ -34,6 +34,11 @@ def _h_integrand_call(em, n, args, dst):
 _ACC_OPTS = dict(operator_calls={('vpinst_Fn', 'operator()'): _h_integrand_call, ('vpinst_Map', 'operator()'): _h_map_call,
                                   ('discrete_distribution', 'operator()'): _h_selector_call})
 
+def X_qtype(n):
+    import extract as _X
+    return _X.qtype(n)
+
+
 RECIPES = {
     'accumulate': dict(name='accumulate'),
     'multi_channel_refine_weights': dict(name='multi_channel_refine_weights', must_fire={'G8': 2, 'G11': 1}),
@@ -125,6 +130,14 @@ RECIPES.update({
 RECIPES.update({
     'weighted_with_variance_call': dict(unit='chkpt', name='operator()', cls='weighted_with_variance', cls_targs_has='hep::mc_result', self='weighted_with_variance', opts=dict(iter_vec='vec_mc_result')),
     'weighted_equally_call': dict(unit='chkpt', name='operator()', cls='weighted_equally', cls_targs_has='hep::mc_result', self='weighted_equally', opts=dict(iter_vec='vec_mc_result')),
+    'hep_distribution_accumulator': dict(unit='chkpt', name='hep_distribution_accumulator', opts=dict(iter_vec='vec_plain_result',
+        operator_calls={('weighted_with_variance', 'operator()'): (lambda em, n, args, dst: '%s(%s, &(%s), %s, %s)' % (
+            'vp_combine_results' if 'plain_result' in X_qtype(args[1]) else 'vp_combine_bins', dst, em.iter_parts(args[1])[0], em.iter_parts(args[1])[1], em.iter_parts(args[2])[1]))})),
+    'distribution_result_ctor2': dict(name='distribution_result', cls='distribution_result', self='distribution_result', ctor=True, sel='distribution_parameters'),
+    'plain_result_distributions': dict(name='distributions', cls='plain_result', self='plain_result'),
+    'distribution_result_results': dict(name='results', cls='distribution_result', self='distribution_result'),
+    'mc_result_sum': dict(name='sum', cls='mc_result', self='mc_result'),
+    'mc_result_sum_of_squares': dict(name='sum_of_squares', cls='mc_result', self='mc_result'),
     'chi_square_dof': dict(unit='chkpt', name='chi_square_dof', opts=dict(iter_vec='vec_mc_result')),
     'mc_result_calls': dict(name='calls', cls='mc_result', self='mc_result'),
     'mc_result_non_zero_calls': dict(name='non_zero_calls', cls='mc_result', self='mc_result'),
@@ -519,6 +532,12 @@ JOBS = [
          entry='h_c05_chkpt_base', enforce=None, bounded=True, cbmc_flags=['--unwind', '12', '--unwinding-assertions'],
          structs=[dict(prelude='opaque.h'), dict(prelude='stream.h'), dict(prelude='stream_str.h')] + _ST_CHK[:6], preludes=['opaque.h'], globals='T nondet_T(void); size_t nondet_size_t(void);', loop_contracts=False,
          props=['C05', 'C03'], trusted=['iostream contract of vp/prelude/stream.h and stream_str.h (peek / ignore(max, newline) skip one line)', 'each result is one token in this lemma', 'BOUNDED: at most 4 results (loops unwound with unwinding assertions)']),
+    dict(name='c13_distribution_combination', functions=['hep_distribution_accumulator', 'distribution_result_ctor2', 'plain_result_distributions', 'distribution_result_results', 'distribution_result_parameters',
+                                                           'plain_result_ctor6', 'mc_result_ctor5', 'mc_result_calls', 'mc_result_non_zero_calls', 'mc_result_finite_calls', 'mc_result_sum', 'mc_result_sum_of_squares'],
+         specs=['c13_distribution_combination'], harness_sections=['c13_distribution_combination'], entry='h_c13_distribution_combination', enforce=None, bounded=True,
+         cbmc_flags=['--unwind', '4', '--unwinding-assertions'], loop_contracts=False,
+         structs=_ST_VCHK[:4], preludes=['opaque.h'], props=['C13', 'C11'],
+         trusted=['the accumulator functor is a logged stub (its contract: job weighted_with_variance)', 'BOUNDED: ONE shape (2 results x 2 distributions with 1 and 2 bins), loops unwound with unwinding assertions']),
     dict(name='refine_weights', functions=['multi_channel_refine_weights'], entry='h_multi_channel_refine_weights',
          enforce='multi_channel_refine_weights', replace=['vp_pow'], af=['multi_channel_refine_weights'], globals='T vp_g_s1, vp_g_s2; _Bool vp_g_nodata;',
          defines=['VP_NMAX=1048576'], props=['C08'], thorough_reals=['float'],
